@@ -48,7 +48,7 @@ func runGenConcurrent(s script) (auto int64, outs []outcome) {
 	defer func() { uuid.VerifClock = nil }()
 	auto = autoID
 	rd := s.readings()
-	uuid.VerifClock = func() int64 { return nanos(s.t0) }
+	uuid.VerifClock = func() int64 { return s.nano(-1, s.t0) }
 	sf := uuid.NewSnowflake(uint16(s.mid))
 	var hmu sync.Mutex
 	pos := 0
@@ -64,7 +64,7 @@ func runGenConcurrent(s script) (auto int64, outs []outcome) {
 		log = append(log, logEntry{g, serial[g], pos})
 		t := rd[pos]
 		pos++
-		return nanos(t)
+		return s.nano(pos-1, t)
 	}
 	var wg sync.WaitGroup
 	res := make([][]concCall, s.callers)
